@@ -22,12 +22,12 @@ def run(ctx):
     qs = []
     for nf in range(1, NM + 1):
         for nt in range(1, NM + 1):
-            qs.append(Query('cast-rule-%dx%d' % (nf, nt), L, hs, ['NMAX=%d' % NM, 'NF=%d' % nf, 'NT=%d' % nt], unwind=NM + 2, unwindset=US, timeout=1800 if thorough else 300, backend='cadical',
+            qs.append(Query('cast-rule-%dx%d' % (nf, nt), L, hs, ['NMAX=%d' % NM, 'NF=%d' % nf, 'NT=%d' % nt], unwind=NM + 2, unwindset=US, timeout=1800 if thorough else 900, backend='cadical',
                             desc='canBeCastedTo on flattened vectors of lengths %d and %d, every choice of leaf dtypes: reference rule, symmetry, no crash' % (nf, nt)))
     if 'empty-dtype' in known:
         qs.append(Query('empty/known', L, hs, ['NMAX=%d' % NM, 'EMPTY'], unwind=NM + 2, unwindset=US, timeout=400, backend='cadical', expect='fail', known='key=empty-dtype ' + known['empty-dtype'], desc='re-confirm listed finding'))
     else:
-        qs.append(Query('empty', L, hs, ['NMAX=%d' % NM, 'EMPTY'], unwind=NM + 2, unwindset=US, timeout=1800 if thorough else 400, backend='cadical',
+        qs.append(Query('empty', L, hs, ['NMAX=%d' % NM, 'EMPTY'], unwind=NM + 2, unwindset=US, timeout=1800 if thorough else 900, backend='cadical',
                         desc='an empty struct dtype against flattened vectors of lengths 1..%d, both directions: not castable, no crash' % NM))
     for q in qs:
         q.no_ptr_overflow = True
